@@ -23,8 +23,8 @@ verify)
   echo "suite with patch: $tests"
   demo=$(ls "$D"/demo.sh 2>/dev/null | head -1)
   if [ -n "$demo" ]; then
-    ( cd "$D" && timeout 1200 bash ./demo.sh $WT/_build_orig/lbzip2 >/tmp/vs-$name.orig.log 2>&1 ); ro=$?
-    ( cd "$D" && timeout 1200 bash ./demo.sh $WT/_build/lbzip2 >/tmp/vs-$name.patched.log 2>&1 ); rp=$?
+    ( cd "$D" && timeout 3000 bash ./demo.sh $WT/_build_orig/lbzip2 >/tmp/vs-$name.orig.log 2>&1 ); ro=$?
+    ( cd "$D" && timeout 3000 bash ./demo.sh $WT/_build/lbzip2 >/tmp/vs-$name.patched.log 2>&1 ); rp=$?
     echo "demo unpatched: exit $ro ($(tail -1 /tmp/vs-$name.orig.log))"
     echo "demo patched:   exit $rp ($(tail -1 /tmp/vs-$name.patched.log))"
   fi
